@@ -554,10 +554,17 @@ func (db *Database) performFuzzySearch(query string, options SearchOptions) []Se
 	// Perform fuzzy search
 	matches := fuzzy.Find(query, targets)
 
+	currentPlatform := getCurrentPlatform()
+
 	var results []SearchResult
 	for i, match := range matches {
 		if i >= options.Limit*2 { // Get more for better selection
 			break
+		}
+
+		// The fallback answers under the same platform and pipeline filters as the index scan
+		if !db.passesFilters(&db.Commands[match.Index], currentPlatform, options) {
+			continue
 		}
 
 		// Apply fuzzy threshold
@@ -583,6 +590,20 @@ func (db *Database) performFuzzySearch(query string, options SearchOptions) []Se
 	}
 
 	return results
+}
+
+// passesFilters reports whether a command may be returned under the platform and pipeline
+// options (the gates processPostingsForTerm applies to the index scan).
+func (db *Database) passesFilters(doc *Command, currentPlatform string, options SearchOptions) bool {
+	if !options.AllPlatforms && len(doc.Platform) > 0 {
+		if !isPlatformCompatible(doc.Platform, currentPlatform) && !isCrossPlatformTool(doc.Command) {
+			return false
+		}
+	}
+	if options.PipelineOnly && !isPipelineCommand(doc) {
+		return false
+	}
+	return true
 }
 
 // combineAndDeduplicateResults merges exact and fuzzy results, removing duplicates
